@@ -10,6 +10,8 @@ from .C01 import _cls
 XS = 'xmlns:xs="http://www.w3.org/2001/XMLSchema"'
 LEX = {'integer': {1: ['1', '01', '+1'], 2: ['2', '02']}, 'boolean': {1: ['true', '1'], 2: ['false', '0']}, 'string': {1: ['a'], 2: ['b']},
        'decimal': {1: ['1', '1.0', '01.00'], 2: ['2.50', '2.5']},
+       # falsy values of Python (0, false, the empty string) against a DEFAULT of the field attribute: an explicit value is never replaced by the default, an absent attribute has it
+       'integer0': {1: ['1', '01'], 2: ['0', '-0', '+0', '00']}, 'boolean0': {1: ['true', '1'], 2: ['false', '0']}, 'decimal0': {1: ['1', '1.0'], 2: ['0', '0.0', '-0.00']}, 'string0': {1: ['d'], 2: ['']},
        # union-typed fields: the value is that of the first member type that accepts the text
        'UIntBool': {1: ['1', '01', '+1'], 2: ['true']}, 'UBoolStr': {1: ['true', '1'], 2: ['x']}, 'USmallBool': {1: ['7', '07'], 2: ['false', '0']}}
 TYPES = '''<xs:simpleType name="Small"><xs:restriction base="xs:int"><xs:maxInclusive value="50"/><xs:minInclusive value="2"/></xs:restriction></xs:simpleType>
@@ -17,9 +19,13 @@ TYPES = '''<xs:simpleType name="Small"><xs:restriction base="xs:int"><xs:maxIncl
  <xs:simpleType name="USmallBool"><xs:union memberTypes="Small xs:boolean"/></xs:simpleType>'''
 
 
+DEFAULTS = {'integer0': '1', 'boolean0': 'true', 'decimal0': '1', 'string0': 'd'}
+
+
 def schema(nf, ftype, kind, ver, alt=False):
-    tname = ftype if ftype.startswith('U') else 'xs:' + ftype
-    attrs = ''.join(f'<xs:attribute name="f{i}" type="{tname}"/>' for i in range(nf))
+    tname = ftype if ftype.startswith('U') else 'xs:' + ftype.rstrip('0')
+    dflt = f' default="{DEFAULTS[ftype]}"' if ftype in DEFAULTS else ''
+    attrs = ''.join(f'<xs:attribute name="f{i}" type="{tname}"{dflt}/>' for i in range(nf))
     fields = ''.join(f'<xs:field xpath="@f{i}"/>' for i in range(nf))
     if alt:
         # XSD 1.1: the field attributes are declared only by the type that an xs:alternative selects (no xsi:type in the instance); values still compare in their value space
@@ -62,11 +68,14 @@ def eval_template(args):
     for krows, frows in tables:
         def el(tag, r): return f'<{tag} ' + ('t="x" ' if alt else '') + ' '.join(f'f{i}="{rng.choice(LEX[ftype][v])}"' for i, v in enumerate(r) if v is not None) + '/>'
         doc = '<r>' + ''.join(el('k', r) for r in krows) + ''.join(el('f', r) for r in frows) + '</r>'
-        if kind == 'unique' and any(any(v is None for v in r) and not all(v is None for v in r) for r in krows): rep += 1; continue
+        if ftype not in DEFAULTS and kind == 'unique' and any(any(v is None for v in r) and not all(v is None for v in r) for r in krows): rep += 1; continue
         n += 1
         try: got = s.is_valid(doc)
         except Exception as e: got = f'EXC {type(e).__name__}'
-        exp = key_table_ok(kind, krows, frows)
+        if ftype in DEFAULTS:        # an absent field attribute has its default value (1)
+            eff = lambda rows: [tuple(1 if v is None else v for v in r) for r in rows]
+            exp = key_table_ok(kind, eff(krows), eff(frows))
+        else: exp = key_table_ok(kind, krows, frows)
         if got != exp and len(bad) < 3: bad.append(dict(doc=doc, got=got, exp=exp, krows=krows, frows=frows))
     return dict(template=(nf, ftype, kind, ver) + ((True,) if alt else ()), cases=n, reported=rep, bad=bad)
 
